@@ -204,5 +204,6 @@ def run(ctx, config="all"):
     else:
         rep.violation("conditional_select|missing", "src/support/subtle.rs", "ConditionallySelectable impl not found")
     rep.analysed = {"build_config": config, "strict_comparisons_classified": n_strict}
-    rep.floor("strict_comparisons_classified", n_strict, 2)
+    # no floor: ct_gt / ct_lt written without a strict comparison of their own (a shared worker taking the per-limb
+    # comparison as a closure) are "not decided", which each obligation says
     return rep
